@@ -135,7 +135,8 @@ fn known_header() -> impl Strategy<Value = (String, Hex)> {
     (hv, prop_oneof![4 => Just(" "), 1 => Just(""), 1 => Just("\t"), 1 => Just("  ")]).prop_map(|((n, v), sep)| (n, Hex(format!("{}{}", sep, v).into_bytes())))
 }
 
-pub fn http_req() -> impl Strategy<Value = HttpReq> {
+pub fn http_req() -> BoxedStrategy<HttpReq> {
+    let inner = (|| {
     (
         0usize..9,
         target_bytes(),
@@ -148,6 +149,8 @@ pub fn http_req() -> impl Strategy<Value = HttpReq> {
         prop_oneof![4 => Just(Hex(vec![])), 2 => vec(any::<u8>(), 0..40).prop_map(Hex), 1 => (0usize..70, any::<u8>()).prop_map(|(n, b)| Hex(vec![b; n]))],
     )
         .prop_map(|(verb, target, major, minor, headers, crlf, tail)| HttpReq { verb, target, major, minor, headers, crlf, tail })
+})();
+    inner.boxed()
 }
 
 // ---------------------------------------------------------------------------------------
@@ -225,8 +228,11 @@ pub fn ssh_banner_long() -> impl Strategy<Value = SshBanner> {
     })
 }
 
-pub fn ssh_banner() -> impl Strategy<Value = SshBanner> {
+pub fn ssh_banner() -> BoxedStrategy<SshBanner> {
+    let inner = (|| {
     prop_oneof![12 => ssh_banner_plain(), 1 => ssh_banner_long()]
+})();
+    inner.boxed()
 }
 
 fn ssh_banner_plain() -> impl Strategy<Value = SshBanner> {
@@ -237,7 +243,8 @@ fn ssh_banner_plain() -> impl Strategy<Value = SshBanner> {
 // ---------------------------------------------------------------------------------------
 // Gh0st
 
-pub fn ghost_req() -> impl Strategy<Value = Hex> {
+pub fn ghost_req() -> BoxedStrategy<Hex> {
+    let inner = (|| {
     let random_tail = vec(any::<u8>(), 0..300).prop_map(|t| {
         let mut v = b"Gh0st".to_vec();
         v.extend_from_slice(&t);
@@ -271,6 +278,8 @@ pub fn ghost_req() -> impl Strategy<Value = Hex> {
         Hex(v)
     });
     prop_oneof![3 => random_tail, 2 => structured, 3 => compressed]
+})();
+    inner.boxed()
 }
 
 pub fn zlib_compress(data: &[u8], level: u32) -> Vec<u8> {
@@ -403,7 +412,8 @@ pub fn stun_req_classic() -> impl Strategy<Value = StunReq> {
 
 /// magic-cookie request whose attribute bytes exceed 255 (so that the message length's high
 /// byte is non-zero and the request is outside the matcher's known shadowing divergence)
-pub fn stun_req_magic_big() -> impl Strategy<Value = StunReq> {
+pub fn stun_req_magic_big() -> BoxedStrategy<StunReq> {
+    let inner = (|| {
     // bytes behind the message (the length field says where it ends): nothing, zeros, something
     // that reads like a CHANGE-REQUEST with the change-port bit, a TLV announcing more than is
     // there, arbitrary bytes
@@ -420,10 +430,15 @@ pub fn stun_req_magic_big() -> impl Strategy<Value = StunReq> {
         r.trailer = Hex(trailer);
         r
     })
+})();
+    inner.boxed()
 }
 
-pub fn stun_req() -> impl Strategy<Value = StunReq> {
+pub fn stun_req() -> BoxedStrategy<StunReq> {
+    let inner = (|| {
     prop_oneof![2 => stun_req_magic(), 2 => stun_req_magic_big(), 2 => stun_req_classic()]
+})();
+    inner.boxed()
 }
 
 /// RFC 5389 request whose attribute values have lengths that are not multiples of 4 (each value
@@ -593,11 +608,14 @@ fn dns_question_mixed() -> impl Strategy<Value = DnsQuestion> {
 }
 
 /// QR=0, every other header bit arbitrary, k IN/A questions, no other sections.
-pub fn dns_query(maxq: usize) -> impl Strategy<Value = DnsQuery> {
+pub fn dns_query(maxq: usize) -> BoxedStrategy<DnsQuery> {
+    let inner = (|| {
     let mixed = (any::<u16>(), any::<u16>(), vec(dns_question_a(), 0..=maxq)).prop_map(|(id, flags, questions)| DnsQuery { id, flags: flags & 0x7fff, questions });
     // large messages: the maximum number of questions, each with a name at the length limit
     let big = (any::<u16>(), any::<u16>(), vec(dns_long_name(), maxq.max(1)..=maxq.max(1))).prop_map(|(id, flags, questions)| DnsQuery { id, flags: flags & 0x7fff, questions });
     prop_oneof![30 => mixed, 1 => big]
+})();
+    inner.boxed()
 }
 
 // ---------------------------------------------------------------------------------------
@@ -691,7 +709,8 @@ pub fn auth_sys_cred() -> impl Strategy<Value = Vec<u8>> {
     })
 }
 
-pub fn rpc_call() -> impl Strategy<Value = RpcCall> {
+pub fn rpc_call() -> BoxedStrategy<RpcCall> {
+    let inner = (|| {
     (rpc_call_plain(), prop::option::weighted(0.25, auth_sys_cred())).prop_map(|(mut r, a)| {
         if let Some(a) = a {
             r.cred_flavor = 1;
@@ -699,6 +718,8 @@ pub fn rpc_call() -> impl Strategy<Value = RpcCall> {
         }
         r
     })
+})();
+    inner.boxed()
 }
 
 fn rpc_call_plain() -> impl Strategy<Value = RpcCall> {
@@ -949,7 +970,8 @@ fn smb1_dialect_name() -> impl Strategy<Value = String> {
 /// security blobs as clients send them: raw NTLMSSP messages (NEGOTIATE 1, CHALLENGE 2,
 /// AUTHENTICATE 3, other type numbers), the same inside a SPNEGO negTokenInit / negTokenResp
 /// wrapper, Kerberos-looking tokens, arbitrary bytes
-pub fn security_blob() -> impl Strategy<Value = Vec<u8>> {
+pub fn security_blob() -> BoxedStrategy<Vec<u8>> {
+    let inner = (|| {
     let ntlm = (prop_oneof![3 => Just(1u32), 1 => Just(2u32), 4 => Just(3u32), 1 => any::<u32>()], vec(any::<u8>(), 0..200)).prop_map(|(t, rest)| {
         let mut v = b"NTLMSSP\0".to_vec();
         v.extend_from_slice(&t.to_le_bytes());
@@ -986,9 +1008,12 @@ pub fn security_blob() -> impl Strategy<Value = Vec<u8>> {
         }),
         1 => vec(any::<u8>(), 0..60).prop_map(|r| { let mut v = vec![0x60, 0x82, 0x01, 0x00, 0x06, 0x09, 0x2a, 0x86, 0x48, 0x86, 0xf7, 0x12, 0x01, 0x02, 0x02, 0x01, 0x00, 0x6e]; v.extend_from_slice(&r); v }),
     ]
+})();
+    inner.boxed()
 }
 
-pub fn smb_req() -> impl Strategy<Value = SmbReq> {
+pub fn smb_req() -> BoxedStrategy<SmbReq> {
+    let inner = (|| {
     prop_oneof![
         (smb1_hdr(0x72), vec(smb1_dialect_name(), 1..=8)).prop_map(|(hdr, dialects)| SmbReq::Smb1Negotiate { hdr, dialects }),
         (smb1_hdr(0x73), security_blob(), any::<[u16; 6]>(), any::<u32>(), vec(any::<u8>(), 0..24)).prop_map(|(hdr, blob, words, caps, trailer)| SmbReq::Smb1SessionSetup { hdr, blob: Hex(blob), words, caps, trailer: Hex(trailer) }),
@@ -997,6 +1022,8 @@ pub fn smb_req() -> impl Strategy<Value = SmbReq> {
         (smb2_hdr(1), security_blob(), any::<u8>(), any::<u8>(), any::<u32>(), any::<u32>(), any::<u64>())
             .prop_map(|(hdr, blob, flags, secmode, caps, channel, prev)| SmbReq::Smb2SessionSetup { hdr, blob: Hex(blob), flags, secmode, caps, channel, prev }),
     ]
+})();
+    inner.boxed()
 }
 
 // ---------------------------------------------------------------------------------------
@@ -1048,7 +1075,8 @@ impl AppReq {
     }
 }
 
-pub fn app_req() -> impl Strategy<Value = AppReq> {
+pub fn app_req() -> BoxedStrategy<AppReq> {
+    let inner = (|| {
     prop_oneof![
         3 => http_req().prop_map(AppReq::Http),
         2 => ssh_banner().prop_map(AppReq::Ssh),
@@ -1059,4 +1087,6 @@ pub fn app_req() -> impl Strategy<Value = AppReq> {
         3 => smb_req().prop_map(AppReq::Smb),
         1 => vec(any::<u8>(), 0..100).prop_map(|v| AppReq::Garbage(Hex(v))),
     ]
+})();
+    inner.boxed()
 }
